@@ -13,7 +13,7 @@ mkdir -p "$BIN"
 
 build() { # $1 = output name, $2.. = extra go build flags
   local out="$BIN/$1"; shift
-  ( cd "$SIM" && cp /repo/go.sum go.sum && go build -tags verif "$@" -o "$out" . ) 2>"$BIN/build.$$.log"
+  ( cd "$SIM" && cat /repo/go.sum go.sum.extra | sort -u > go.sum && go build -tags verif "$@" -o "$out" . ) 2>"$BIN/build.$$.log"
   local rc=$?
   if [ $rc -ne 0 ]; then
     echo "INFRA: build against /repo working tree failed:" >&2
